@@ -99,8 +99,11 @@ class Session:
     def cmd(self, ev, c, fields):
         self.stats['cmds'] += 1
         name = Cn.name_of(fields)
-        before = self.impl.snapshot() if self.observers else None
+        before = self.impl.snapshot_struct() if self.observers else None
         out_i, crash_i, clocks, picks = self.impl.send(c, encode_request(fields))
+        self.last_out = out_i
+        mine = out_i.get(c, [])
+        self.last_raw = mine[0] if len(mine) == 1 else mine
         line = self.model.cmd(c, model_fields(fields), clocks, picks)
         self.compare_outputs(ev, c, name, out_i, crash_i, line)
         if self.compare_state:
